@@ -1,7 +1,10 @@
 (* Model level (arbitrary iterate lists): classification of the steps the
    Rabin transducer model allows when the environment keeps its action.
    Every such step is
-     a descent to the previous persistence basin           (rho_1),
+     a descent to the previous persistence basin           (rho_1; the part of
+       rho_1 that serves level 0 - the repair of finding F3: steps out of
+       cpre(FALSE) towards the EMPTY basin - contains no step in which the
+       environment keeps its action, [ca_false_breaks_env]),
      the choice of a persistence set at a rim              (rho_2),
      a descent in the attractor of the pursued goal        (rho_3), or
      an advance to the next recurrence goal at a goal state (rho_4),
@@ -162,6 +165,17 @@ Proof.
   exists i, y. auto.
 Qed.
 
+(* A controllable action towards the EMPTY set contains no step in which the
+   environment keeps its action: the level-0 part of rho_1 (steps out of
+   cpre(FALSE)) ends the behaviour / makes the environment lose.  Closure and
+   liveness therefore have nothing to show for these steps. *)
+Lemma ca_false_breaks_env e v : inr v -> ca bfalse e v = true -> E v = false.
+Proof.
+  intros Hv Hca. destruct (E v) eqn:He; [|reflexivity].
+  destruct (ca_env_target nc nx ny M E S moore plus_one _ _ v Hv Hca He) as [Hn _].
+  discriminate Hn.
+Qed.
+
 Theorem rabin_step_kinds v :
   inr v ->
   rabin_action nc nx ny H G E S holds goals moore plus_one zk yki xkijr v = true ->
@@ -169,16 +183,16 @@ Theorem rabin_step_kinds v :
 Proof.
   intros Hv HA He.
   unfold rabin_action, rabin_action_k in HA. cbv beta zeta in HA.
-  match type of HA with context [fold_left ?f (tl zk) ?a] =>
-    set (F1 := f) in HA; set (a1 := a) in HA end.
   match type of HA with context [fold_left ?f rounds ?a] =>
     set (F2 := f) in HA; set (a2 := a) in HA end.
+  match type of HA with context [fold_left ?f zk ?a] =>
+    set (F1 := f) in HA; set (a1 := a) in HA end.
   (* generic forms of the two folds *)
   set (t1 := fun (basin z : bdd) =>
     band (band (band z (bnot basin)) (ca basin None))
          (mp (fun v => Nat.eqb (rgp v) (rg v) && Nat.eqb (rhp v) none))).
-  assert (E1 : fold_left F1 (tl zk) a1 =
-               fold_left (fun p z => (bor (fst p) (t1 (snd p) z), z)) (tl zk) a1).
+  assert (E1 : fold_left F1 zk a1 =
+               fold_left (fun p z => (bor (fst p) (t1 (snd p) z), z)) zk a1).
   { apply fold_left_ext. intros [r b] z. reflexivity. }
   set (rim := fun (basin z : bdd) => band (band z (bnot basin)) (bnot (step E S basin))).
   set (t2 := fun (basin : bdd) (t : bdd * list bdd * list (list (list bdd))) =>
@@ -248,9 +262,9 @@ Proof.
     intros [[[r2 r3] r4] b] t. reflexivity. }
   rewrite E1, E2 in HA. clearbody F1 F2. clear E1 E2 F1 F2.
   specialize (P2 rounds a2). specialize (P3 rounds a2). specialize (P4 rounds a2).
-  pose proof (thread_inv nc nx nyE t1 (fun z => z) (tl zk) bfalse (hd bfalse zk) v) as I1.
+  pose proof (thread_inv nc nx nyE t1 (fun z => z) zk bfalse bfalse v) as I1.
   fold a1 in I1.
-  destruct (fold_left _ (tl zk) a1) as [rho_1 b1].
+  destruct (fold_left _ zk a1) as [rho_1 b1].
   destruct (fold_left G2 rounds a2) as [[[rho_2 rho_3] rho_4] b2].
   cbn [fst snd] in *.
   assert (Hu0 : bor (bor (bor rho_1 rho_2) rho_3) rho_4 v = true).
@@ -277,8 +291,15 @@ Proof.
     apply andb_true_iff in Ht. destruct Ht as [Hz Hb]. apply negb_true_iff in Hb.
     apply mp_true in Hc. apply andb_true_iff in Hc. destruct Hc as [C1 C2].
     apply Nat.eqb_eq in C1, C2.
-    destruct (ca_env_target nc nx ny M E S moore plus_one _ _ v Hv Hca He) as [Hn _].
-    apply (k_down v l1 z l2 Hl Hz Hb Hn C1 C2).
+    destruct l1 as [|z0 l1'].
+    + (* level 0, towards the empty basin: the environment breaks its action *)
+      cbn [last] in Hca. rewrite (ca_false_breaks_env None v Hv Hca) in He. discriminate He.
+    + destruct (ca_env_target nc nx ny M E S moore plus_one _ _ v Hv Hca He) as [Hn _].
+      rewrite last_cons_def in Hb, Hn.
+      assert (Htl : tl zk = l1' ++ z :: l2) by (rewrite Hl; reflexivity).
+      assert (Hhd : hd bfalse zk = z0) by (rewrite Hl; reflexivity).
+      rewrite <- Hhd in Hb, Hn.
+      apply (k_down v l1' z l2 Htl Hz Hb Hn C1 C2).
   - (* rho_2 *)
     pose proof (thread_inv nc nx nyE t2 tz rounds bfalse bfalse v) as I2.
     unfold a2 in P2. cbn [fst snd] in P2. rewrite <- P2 in I2. cbn [fst] in I2.
